@@ -95,10 +95,15 @@ def main():
                 'repo_head': head, 'detected_by': det, 'replay_kinds': {p: res[p]['kind'] for p in det},
                 'own_property_check_detects': meta.get('property') in det}
             mpath = os.path.join(VERIF, 'seeded', 'MATRIX.json')
-            matrix = json.load(open(mpath)) if os.path.exists(mpath) else {}
-            matrix[name] = {'repo_head': head, 'detected_by': det, 'kinds': {p: res[p]['kind'] for p in det},
-                            'infra_errors': [p for p, o in res.items() if o['exit'] not in (0, 1)]}
-            json.dump(matrix, open(mpath, 'w'), indent=1, sort_keys=True)
+            import fcntl
+            with open(mpath + '.lock', 'w') as lk:          # several ingests run side by side
+                fcntl.flock(lk, fcntl.LOCK_EX)
+                matrix = json.load(open(mpath)) if os.path.exists(mpath) else {}
+                matrix[name] = {'repo_head': head, 'detected_by': det, 'kinds': {p: res[p]['kind'] for p in det},
+                                'infra_errors': [p for p, o in res.items() if o['exit'] not in (0, 1)]}
+                with open(mpath + '.tmp', 'w') as f:
+                    json.dump(matrix, f, indent=1, sort_keys=True)
+                os.replace(mpath + '.tmp', mpath)
         json.dump(meta, open(mp, 'w'), indent=1)
         print(name, 'detected_by', det, 'kinds', {p: res[p]['kind'] for p in det},
               'infra', [p for p, o in res.items() if o['exit'] not in (0, 1)], flush=True)
